@@ -34,7 +34,7 @@ import (
 )
 
 func init() {
-	evid.Register(&evid.Check{ID: "C05", Level: "exploration", Run: run, QuickBudget: 240 * time.Second, ThoroughBudget: 20 * time.Minute})
+	evid.Register(&evid.Check{ID: "C05", Level: "exploration", Run: run, QuickBudget: 300 * time.Second, ThoroughBudget: 20 * time.Minute})
 }
 
 // ---- rule tables (read from the real client: which rules and categories exist per version) ----------
